@@ -588,6 +588,12 @@ func (c *Ctx) dischargeIndex(s *panSite, fnBody ast.Node) string {
 				return why
 			}
 		}
+		// variable index after a terminating `if i < 0 || i >= len(B) { return }`
+		if id, ok := unparen(idx).(*ast.Ident); ok {
+			if why := c.rangeCheckedBefore(s.Node, id, bsrc, fnBody); why != "" {
+				return why
+			}
+		}
 		// constant index under a length guard
 		if k, ok := c.ConstInt(idx); ok && k >= 0 {
 			if c.minLenAt(s.Node, bsrc, fnBody) >= k+1 {
@@ -938,4 +944,67 @@ func (c *Ctx) nonNegCounter(o types.Object, at ast.Node) bool {
 		return true
 	})
 	return ok && n > 0
+}
+
+// rangeCheckedBefore: an earlier statement of an enclosing block is a terminating
+// `if i < 0 || i >= len(B)` (in either order, possibly among further disjuncts), and neither
+// i nor B is assigned between it and the use.
+func (c *Ctx) rangeCheckedBefore(n ast.Node, id *ast.Ident, base string, stop ast.Node) string {
+	o := c.Obj(id)
+	var child ast.Node = n
+	for p := c.Parent(n); p != nil; child, p = p, c.Parent(p) {
+		if blk, ok := p.(*ast.BlockStmt); ok {
+			for _, st := range blk.List {
+				if st.Pos() >= child.Pos() {
+					break
+				}
+				ifs, ok := st.(*ast.IfStmt)
+				if !ok || ifs.Else != nil || ifs.Init != nil || !terminating(ifs.Body) {
+					continue
+				}
+				lower, upper := false, false
+				for _, dj := range disjuncts(ifs.Cond) {
+					be, ok := unparen(dj).(*ast.BinaryExpr)
+					if !ok {
+						continue
+					}
+					isI := func(e ast.Expr) bool { x, ok := unparen(e).(*ast.Ident); return ok && c.Obj(x) == o }
+					if isI(be.X) && be.Op == token.LSS {
+						if z, ok := c.ConstInt(be.Y); ok && z == 0 {
+							lower = true
+						}
+					}
+					if isI(be.X) && be.Op == token.GEQ {
+						if k, ok := c.lenMinus(be.Y, base); ok && k == 0 {
+							upper = true
+						}
+					}
+				}
+				if lower && upper {
+					// nothing assigns i or B between the check and the use
+					assigned := false
+					ast.Inspect(blk, func(m ast.Node) bool {
+						if as, ok := m.(*ast.AssignStmt); ok && as.Pos() > ifs.End() && as.End() <= n.Pos() {
+							for _, l := range as.Lhs {
+								if nosp(c.Src(l)) == id.Name || nosp(c.Src(l)) == base {
+									assigned = true
+								}
+							}
+						}
+						if inc, ok := m.(*ast.IncDecStmt); ok && inc.Pos() > ifs.End() && inc.End() <= n.Pos() && nosp(c.Src(inc.X)) == id.Name {
+							assigned = true
+						}
+						return true
+					})
+					if !assigned {
+						return "index was range-checked by a preceding `if i < 0 || i >= len(operand) { return }`"
+					}
+				}
+			}
+		}
+		if p == stop {
+			break
+		}
+	}
+	return ""
 }
